@@ -5,3 +5,6 @@ V="$(cd "$(dirname "$0")/.." && pwd)"
 # C19: driver crate for the shared library (RollingLogger, event_logger)
 [ -f "$V/harness_shared/Cargo.lock" ] || cp "${VERIF_REPO:-/repo}/Cargo.lock" "$V/harness_shared/Cargo.lock"
 ( cd "$V/harness_shared" && CARGO_TARGET_DIR="$V/.target" cargo build --offline --bin c19 ) || exit 1
+
+# C17: the real setup tool, release profile (a debug build of it panics in clap on `restore`)
+( cd "${VERIF_REPO:-/repo}" && CARGO_TARGET_DIR="$V/.target/setup_ws" RUSTFLAGS="" cargo build --offline --locked --release -p proxy_agent_setup ) || exit 1
